@@ -431,6 +431,21 @@ def main(out_path: str):
         "AUDIO_QUALITY_VOICE_ONLY", "AUDIO_QUALITY_LOW", "AUDIO_QUALITY_NORMAL", "AUDIO_QUALITY_EXTERNAL",
         "FIELD_LIST", "TABLE_LIST", "LIST_NOLABEL")}, "constants used by the parameter / appearance blocks of workbook_to_json"))
     parts.append(list_s("xmlReservedNamespaces", sorted(getattr(utils, "XML_RESERVED_NAMESPACES", ())), "utils.XML_RESERVED_NAMESPACES (validate_xml_document; empty before the C01-reserved-namespace-names fix)"))
+    # C01: constants of validate_xml_document / get_nsmap that the Assemble model writes by hand — pinned by decide facts
+    parts.append(list_s("xmlReservedPrefixes", sorted(getattr(utils, "XML_RESERVED_PREFIXES", ())), "utils.XML_RESERVED_PREFIXES (a frozenset: sorted here)"))
+    _re_inv = getattr(utils, "INVALID_XML_CHAR_REGEX", None)
+    parts.append("/-- code points of the source of utils.INVALID_XML_CHAR_REGEX (`[^…]`: a negated class of single characters and ranges) -/\n"
+                 "def invalidXmlCharRegexCodes : List Nat := " + lst(str(ord(c)) for c in (_re_inv.pattern if _re_inv is not None else "")))
+    def _entities_literal():
+        import ast, inspect, textwrap
+        from pyxform.survey import Survey as _S
+        try:
+            tree = ast.parse(textwrap.dedent(inspect.getsource(_S.get_nsmap)))
+        except Exception:  # noqa: BLE001
+            return ""
+        lits = [n.value for n in ast.walk(tree) if isinstance(n, ast.Constant) and isinstance(n.value, str) and "entities=" in n.value]
+        return lits[0] if len(lits) == 1 else ""
+    parts.append(str_c("entitiesNsLiteral", _entities_literal(), "the string literal Survey.get_nsmap appends to the namespaces setting (from the function's AST)"))
     parts.append("end Pyxv.Gen\n")
     # several slices may ask for the same table: keep the first definition of each name
     seen, uniq = set(), []
